@@ -547,6 +547,11 @@ func readThrough(m, obj *Term, tag string, depth int) *Term {
 			break
 		}
 		o, arr := c.Args[1], c.Args[2]
+		if strings.HasPrefix(c.Name, "hv:") && c.Name[3:] != tag {
+			// a havoc of cells of another cell type only
+			cur = c.Args[0]
+			continue
+		}
 		if sameIdx(o, obj) {
 			break
 		}
